@@ -164,6 +164,7 @@ inductive Painted (ν : Type) where
   | fill (p : List PathRef) (eo : Bool) (sh : Shade) (alpha : Nat)
   | stroke (p : List PathRef) (closes : Bool) (sh : Shade) (alpha : Nat) (lw : ν) (cap : Nat) (join : Nat)
       (ml : Option ν) (dash : List ν) (phase : ν)
+  | image (k : Nat) (alpha : Nat)            -- image XObject `/Im<k> Do`, painted under the nonstroking alpha
   | invalid (why : String)
 
 /-! ## PDF: page-writer cache and RenderPath -/
@@ -182,6 +183,10 @@ inductive POp (ν : Type) where
   | path (p : PathRef)
   | paint (k : PK)
   | panic
+  | q | Q                            -- save / restore the graphics state
+  | clip (h : Bool)                  -- `<clip path> W n` (h: the path data ends with `h`)
+  | cm                               -- concatenate a matrix (geometry is abstract here)
+  | doIm (k : Nat)                   -- `/Im<k> Do`
 
 /-- `pdfPageWriter` graphics-state cache (writer.go 699-707): the cached graphics state … -/
 structure PC (ν : Type) where
@@ -338,7 +343,43 @@ def pdfProg : List (Draw ν) → PW ν → PW ν × List (List (POp ν))
   | [], w => (w, [])
   | d :: ds, w => ((pdfProg ds (pdfDraw N d w).1).1, (pdfDraw N d w).2 :: (pdfProg ds (pdfDraw N d w).1).2)
 
+/-- `pdfPageWriter.DrawImage` (writer.go 1200-1222): ` q <rect> re W n <quad> W n`, SetAlpha(1.0) — inside the
+q/Q pair —, ` <m> cm /Im<k> Do Q`; `k` = number of image XObjects of the page so far -/
+def pdfImage (k : Nat) : PAct ν := fun w =>
+  ((setAlpha 255 w).1, [POp.q, .clip false, .clip true] ++ (setAlpha (ν := ν) 255 w).2 ++ [.cm, .doIm k, .Q])
+
+/-- one recorded renderer call on a page: a path draw or an image -/
+inductive Item (ν : Type) where
+  | draw (d : Draw ν)
+  | image
+
+/-- page writer + number of image XObjects of the page -/
+structure PPage (ν : Type) where
+  w : PW ν
+  nimg : Nat
+
+def pdfItem : Item ν → PPage ν → PPage ν × List (POp ν)
+  | .draw d, pg => ({ pg with w := (pdfDraw N d pg.w).1 }, (pdfDraw N d pg.w).2)
+  | .image, pg => ({ w := (pdfImage pg.nimg pg.w).1, nimg := pg.nimg + 1 }, (pdfImage pg.nimg pg.w).2)
+
+def pdfItems : List (Item ν) → PPage ν → PPage ν × List (List (POp ν))
+  | [], pg => (pg, [])
+  | it :: its, pg => ((pdfItems its (pdfItem N it pg).1).1, (pdfItem N it pg).2 :: (pdfItems its (pdfItem N it pg).1).2)
+
 /-! ### PDF interpreter (content-stream graphics state, PDF 32000-1 §8.4) -/
+
+/-- what `q` saves and `Q` restores (the device-independent graphics state parameters used here) -/
+structure PGS (ν : Type) where
+  fill : Shade
+  stroke : Shade
+  ca : Nat
+  CA : Nat
+  lw : ν
+  cap : Nat
+  join : Nat
+  ml : ν
+  dash : List ν
+  phase : ν
 
 structure PG (ν : Type) where
   fill : Shade
@@ -352,10 +393,15 @@ structure PG (ν : Type) where
   dash : List ν
   phase : ν
   cur : Option PathRef
+  saved : List (PGS ν)
+
+def PG.snap (g : PG ν) : PGS ν :=
+  { fill := g.fill, stroke := g.stroke, ca := g.ca, CA := g.CA, lw := g.lw, cap := g.cap, join := g.join, ml := g.ml,
+    dash := g.dash, phase := g.phase }
 
 def pg0 : PG ν :=
   { fill := .rgb 0 0 0 255, stroke := .rgb 0 0 0 255, ca := 255, CA := 255, lw := N.one, cap := 0, join := 0,
-    ml := N.ten, dash := [], phase := N.zero, cur := none }
+    ml := N.ten, dash := [], phase := N.zero, cur := none, saved := [] }
 
 def PG.strokeItem (g : PG ν) (p : PathRef) (closes : Bool) : Painted ν :=
   .stroke [p] closes g.stroke g.CA g.lw g.cap g.join (if g.join == 0 then some g.ml else none) g.dash g.phase
@@ -392,6 +438,16 @@ def pdfStep (g : PG ν) : POp ν → PG ν × List (Painted ν)
     | some p => ({ g with cur := none }, pdfPaint g p k)
     | none => (g, [.invalid "painting operator without a path"])
   | .panic => (g, [.invalid "panic"])
+  | .q => ({ g with saved := g.snap :: g.saved }, [])
+  | .Q =>
+    match g.saved with
+    | s :: rest =>
+      ({ fill := s.fill, stroke := s.stroke, ca := s.ca, CA := s.CA, lw := s.lw, cap := s.cap, join := s.join, ml := s.ml,
+         dash := s.dash, phase := s.phase, cur := none, saved := rest }, [])
+    | [] => (g, [.invalid "Q without q"])
+  | .clip _ => ({ g with cur := none }, [])
+  | .cm => (g, [])
+  | .doIm k => (g, [.image k g.ca])
 
 def pdfRun : PG ν → List (POp ν) → PG ν × List (Painted ν)
   | g, [] => (g, [])
@@ -400,7 +456,7 @@ def pdfRun : PG ν → List (POp ν) → PG ν × List (Painted ν)
 /-- the interpreter state the cache claims (abstraction function of the invariant) -/
 def gOf (c : PC ν) : PG ν :=
   { fill := shadeOf c.fill, stroke := shadeOf c.stroke, ca := c.alpha, CA := c.alpha, lw := c.lw, cap := c.cap,
-    join := c.join, ml := c.ml, dash := c.dashes, phase := c.phase, cur := none }
+    join := c.join, ml := c.ml, dash := c.dashes, phase := c.phase, cur := none, saved := [] }
 
 /-! ### reference semantics (rasterizer.RenderPath 79-158), in the vocabulary of PDF/PS -/
 
